@@ -387,6 +387,7 @@ pub fn link_model() {
         proc_::_exit as *const () as usize,
         proc_::waitpid as *const () as usize,
         proc_::kill as *const () as usize,
+        proc_::killpg as *const () as usize,
         proc_::chdir as *const () as usize,
         proc_::setuid as *const () as usize,
         proc_::setgid as *const () as usize,
